@@ -499,10 +499,164 @@ fn local_key() -> BoxedStrategy<KeySpec> {
 	}).boxed()
 }
 
+// ---------------------------------------------------------------------------------------------
+// The command line tool holds freshly generated keys while it writes its files: when writing fails,
+// what it prints must not contain them.
+
+#[derive(Clone, Debug, Serialize, Deserialize, PartialEq, Eq, Hash)]
+pub struct CliFailCase {
+	pub build: String,
+	pub alg: Option<String>,
+	/// 0..=3: a directory sits where the end-entity certificate / end-entity key / CA certificate /
+	/// CA key file should go; 4: --output names a regular file; 5: no obstruction but an invalid
+	/// --country-name; 6: a non-ASCII --san
+	pub obstruction: u8,
+	pub cert_name: Option<String>,
+	pub ca_name: Option<String>,
+}
+
+/// Base64 runs (also inside Debug-escaped text) that decode to something OpenSSL or the PKCS#8
+/// reader takes for a private key.
+fn private_keys_in_text(text: &str) -> Vec<Vec<u8>> {
+	let text = text.replace("\\n", "\n").replace("\\r", "\n");
+	let mut runs: Vec<String> = Vec::new();
+	let mut cur = String::new();
+	for line in text.lines() {
+		let t = line.trim();
+		let is_b64 = !t.is_empty() && t.bytes().all(|b| b.is_ascii_alphanumeric() || b == b'+' || b == b'/' || b == b'=');
+		if is_b64 {
+			cur.push_str(t);
+		} else {
+			if !cur.is_empty() {
+				runs.push(std::mem::take(&mut cur));
+			}
+			// base64 embedded in a longer line
+			for tok in t.split(|c: char| !(c.is_ascii_alphanumeric() || c == '+' || c == '/' || c == '=')) {
+				if tok.len() >= 44 {
+					runs.push(tok.to_string());
+				}
+			}
+		}
+	}
+	if !cur.is_empty() {
+		runs.push(cur);
+	}
+	let mut found = Vec::new();
+	for r in runs {
+		if r.len() < 44 {
+			continue;
+		}
+		if let Ok(der) = openssl::base64::decode_block(&r) {
+			let _ = openssl::error::ErrorStack::get();
+			if secrets_of(&der).map_or(false, |s| !s.is_empty()) || openssl::pkey::PKey::private_key_from_der(&der).is_ok() {
+				found.push(der);
+			}
+			let _ = openssl::error::ErrorStack::get();
+		}
+	}
+	found
+}
+
+pub fn check_cli_failure(c: &CliFailCase, info: &mut CaseInfo) -> Result<(), String> {
+	use std::sync::atomic::{AtomicU64, Ordering};
+	static COUNTER: AtomicU64 = AtomicU64::new(0);
+	let exe = crate::props::c18::cli_path(&c.build);
+	if !std::path::Path::new(&exe).exists() {
+		return Err(format!("INTERNAL: CLI binary {exe} has not been built"));
+	}
+	let scratch = std::path::PathBuf::from(format!("{}/out/tmp/c19-{}-{}", keys::verif_root(), std::process::id(), COUNTER.fetch_add(1, Ordering::SeqCst)));
+	let _ = std::fs::remove_dir_all(&scratch);
+	let out_dir = scratch.join("out");
+	std::fs::create_dir_all(&out_dir).map_err(|e| format!("INTERNAL: scratch dir: {e}"))?;
+	let ee = c.cert_name.clone().unwrap_or_else(|| "cert".into());
+	let ca = c.ca_name.clone().unwrap_or_else(|| "root-ca".into());
+	let mut cmd = std::process::Command::new(&exe);
+	let internal = |e: std::io::Error| format!("INTERNAL: {e}");
+	match c.obstruction % 7 {
+		0 => std::fs::create_dir_all(out_dir.join(format!("{ee}.pem"))).map_err(internal)?,
+		1 => std::fs::create_dir_all(out_dir.join(format!("{ee}.key.pem"))).map_err(internal)?,
+		2 => std::fs::create_dir_all(out_dir.join(format!("{ca}.pem"))).map_err(internal)?,
+		3 => std::fs::create_dir_all(out_dir.join(format!("{ca}.key.pem"))).map_err(internal)?,
+		4 => {
+			std::fs::remove_dir_all(&out_dir).map_err(internal)?;
+			std::fs::write(&out_dir, b"a regular file").map_err(internal)?;
+		},
+		5 => {
+			cmd.arg("--country-name").arg("D\u{e9}");
+		},
+		_ => {
+			cmd.arg("--san").arg("b\u{fc}cher.example");
+		},
+	}
+	info.class(format!("obstruction:{}", c.obstruction % 7));
+	cmd.arg("--output").arg(&out_dir);
+	if let Some(a) = &c.alg {
+		cmd.arg(a);
+	}
+	if let Some(v) = &c.cert_name {
+		cmd.arg("--cert-file-name").arg(v);
+	}
+	if let Some(v) = &c.ca_name {
+		cmd.arg("--ca-file-name").arg(v);
+	}
+	let out = cmd.output().map_err(|e| format!("INTERNAL: cannot run the CLI: {e}"))?;
+	let printed = format!("{}\n{}", String::from_utf8_lossy(&out.stdout), String::from_utf8_lossy(&out.stderr));
+	let r = (|| -> Result<(), String> {
+		if out.status.success() {
+			info.class("tool-succeeded");
+		} else {
+			info.nontrivial = true;
+			info.class("tool-failed");
+		}
+		if printed.contains("PRIVATE KEY") {
+			return Err(format!("the tool prints a private key block when it fails (obstruction {}): {}", c.obstruction % 7, printed.chars().take(200).collect::<String>()));
+		}
+		if let Some(k) = private_keys_in_text(&printed).first() {
+			return Err(format!("the tool prints base64 text that decodes to a private key ({} octets) when it fails (obstruction {})", k.len(), c.obstruction % 7));
+		}
+		// keys that did reach the disk: none of their secret components may appear in what was printed
+		let mut files = Vec::new();
+		crate::props::c18::list_files(&scratch, &mut files);
+		for f in files {
+			if let Ok(text) = std::fs::read_to_string(&f) {
+				if let Ok(der) = crate::pemstrict::decode(&text, "PRIVATE KEY") {
+					if let Ok(secrets) = secrets_of(&der) {
+						let sc = Scanner::new(&secrets);
+						if let Some(form) = sc.scan(printed.as_bytes()) {
+							return Err(format!("the tool prints material of the private key it wrote to {:?} in {form} form", f.file_name()));
+						}
+					}
+				}
+			}
+		}
+		Ok(())
+	})();
+	let _ = std::fs::remove_dir_all(&scratch);
+	r
+}
+
+fn cli_fail_case() -> BoxedStrategy<CliFailCase> {
+	(
+		prop::sample::select(vec!["ring".to_string(), "aws".to_string()]),
+		prop_oneof![2 => Just(None), 1 => Just(Some("--ed25519")), 1 => Just(Some("--ecdsa-p256")), 1 => Just(Some("--ecdsa-p384")), 1 => Just(Some("--ecdsa-p521")), 1 => Just(Some("--rsa"))],
+		0u8..7,
+		prop::option::of("[a-z]{1,6}"),
+		prop::option::of("[A-Z]{1,6}"),
+	)
+		.prop_map(|(build, alg, obstruction, cert_name, ca_name)| {
+			let alg = match (build.as_str(), alg) {
+				("ring", Some("--rsa")) | ("ring", Some("--ecdsa-p521")) => None,
+				(_, a) => a.map(|s| s.to_string()),
+			};
+			CliFailCase { build, alg, obstruction, cert_name, ca_name }
+		})
+		.boxed()
+}
+
 pub fn def() -> PropertyDef {
 	PropertyDef {
 		id: "C19",
-		rule: "Every fixture key algorithm of this back end; the secret components (EC scalar, Ed25519 seed, RSA d/p/q/dP/dQ/qInv) are cut out of the PKCS#8 by the harness reader and every output channel is scanned for any 16-byte window of any component in raw, hexadecimal (either case, separators), decimal-list and base64 (all four alignments) form: der()/pem() and Debug of certificates, CSRs, CSR parameters, CRLs, exported public keys, Debug of KeyPair and SubjectPublicKeyInfo; error paths: the key under every wrong algorithm through every entry point, 0..8 DER mutations, 0..3 PEM text edits (line deleted/duplicated, blank or space line inserted, label changed, header added, truncated, character replaced, CRLF, joined lines, garbage prepended) through all PEM loaders and through the certificate/CSR/SPKI parsers. The explicit export functions are the only exempt channel (and the scanner must find the key there). Non-trivial = artefact case, or an error-path case with at least one error text.",
+		rule: "Every fixture key algorithm of this back end; the secret components (EC scalar, Ed25519 seed, RSA d/p/q/dP/dQ/qInv) are cut out of the PKCS#8 by the harness reader and every output channel is scanned for any 16-byte window of any component in raw, hexadecimal (either case, separators), decimal-list and base64 (all four alignments) form: der()/pem() and Debug of certificates, CSRs, CSR parameters, CRLs, exported public keys, Debug of KeyPair and SubjectPublicKeyInfo; error paths: the key under every wrong algorithm through every entry point, 0..8 DER mutations, 0..3 PEM text edits (line deleted/duplicated, blank or space line inserted, label changed, header added, truncated, character replaced, CRLF, joined lines, garbage prepended) through all PEM loaders and through the certificate/CSR/SPKI parsers. The command line tool (both builds) is run into obstructed output locations (a directory where one of the four files should go, --output naming a regular file) and with invalid options: what it prints must contain no private key block, no base64 text that decodes to a private key, and no material of a key it did write. The explicit export functions are the only exempt channel (and the scanner must find the key there). Non-trivial = artefact case, or an error-path case with at least one error text.",
 		assumptions: vec!["a leak is a contiguous window of >= 16 bytes of a secret component in one of the four renderings", "the harness reader extracts the secret components correctly (the scanner is checked against the explicit export in every artefact case)"],
 		subs: vec![
 			prop_sub("artefacts", 12_500, 150_000, || {
@@ -515,6 +669,7 @@ pub fn def() -> PropertyDef {
 					.prop_map(|(key, legacy, ops, der_mutations)| ErrorPathCase { key, legacy, ops, der_mutations })
 					.boxed()
 			}, check_error_paths),
+			prop_sub("cli-failures", 420, 3_000, cli_fail_case, check_cli_failure),
 		],
 	}
 }
